@@ -125,6 +125,9 @@ def run(ctx):
     memo_rule(ctx, 'R06e', 'SuperNetCombiner.get_cost', gc, 1, 2)
     sgc = repo.cls('SuperNet').methods['_get_single_cost']
     memo_rule(ctx, 'R06e', 'SuperNet._get_single_cost', sgc, 1, 2)
+    from .c04 import accumulation_rule
+    accumulation_rule(ctx, 'R06f', 'SuperNet._get_single_cost', sgc)
+    accumulation_rule(ctx, 'R06f', 'SuperNetCombiner.get_cost', gc, keep=KEEP)
     for p in returning(paths(repo, fwd)):
         if any(e.kind == 'loop0' for e in p.events):
             continue
